@@ -2,7 +2,7 @@
    counter before installing; does the injector's drop pop its guards newest-first and nothing else; is the verifier silent
    while unwinding and does it compare with `!=`; is the lock the last field dropped) as FOUND in the current
    src/interface/*.rs by tools/const_translate.py (1 = the shape the model assumes was found). *)
-From Inj Require Import Base.
+From Inj Require Import Base Churn.
 From Inj.gen Require Import SrcConsts.
 
 Definition src_reset : bool := WILL_EXECUTE_RESETS_COUNTER =? 1.
@@ -13,4 +13,12 @@ Definition src_lock_dropped_last : bool := LOCK_FIELD_DROPPED_LAST =? 1.
 Lemma src_unwinding_shape : src_verifier_silent_when_unwinding && src_lock_dropped_last && src_lifo = true.
 Proof. reflexivity. Qed.
 Lemma src_verdict_shape : src_verifier_compares_ne && src_verifier_silent_when_unwinding = true.
+Proof. reflexivity. Qed.
+
+(* the order of a lifetime's steps as the cross-thread model (Churn.v) needs it: the guard is taken by new(), the counter is
+   reset by will_execute (after new, before the calls), and the guard is the last field dropped (after the verifiers) *)
+Definition src_new_takes_lock : bool := NEW_TAKES_THE_LOCK =? 1.
+Definition src_variant : option variant :=
+  if src_new_takes_lock && src_reset && src_lock_dropped_last && src_lifo then Some Good else None.
+Lemma src_variant_good : src_variant = Some Good.
 Proof. reflexivity. Qed.
